@@ -133,6 +133,13 @@ func (ex *Exec) evalCall(e *ast.CallExpr, st *State) Value {
 						}
 						return sv
 					}
+					if at, ok := t.Underlying().(*types.Array); ok && at.Len() <= 64 {
+						av := &ArrayV{Elems: make([]Value, at.Len())}
+						for i := range av.Elems {
+							av.Elems[i] = mk(at.Elem(), name+"."+itoa(i))
+						}
+						return av
+					}
 					unsupported("quantified variable of type %s", t)
 					return nil
 				}
